@@ -29,6 +29,10 @@ def num_producers(x):
            ('funresult', 'idf(%d)' % x, None), ('shift', '(%d << 0)' % x, None), ('product', '(%d * 1)' % x, None)]
     if x == 0:
         out += [('shiftout', '(1 << 64)', None), ('shiftout2', '(5 << 100)', None), ('shr', '(1 >> 70)', None), ('mod', '(4 % 2)', None)]
+    if x >= 2 and x & (x - 1) == 0:
+        k = x.bit_length() - 1
+        out += [('shl', '(1 << %d)' % k, None), ('pow', '(2 ** %d)' % k, None), ('shl2', '(2 << %d)' % (k - 1), None), ('xor', '(%d ^ 0)' % x, None), ('shr', '(%d >> 0)' % x, None),
+                ('powfn', '%s(2, %d)' % (POW, k), None), ('mul', '(%d * 2)' % (x // 2), None)]
     if x <= 12:
         out.append(('len', '%s([%s])' % (LEN, ', '.join(['0'] * x)), None))
     return out
@@ -59,7 +63,7 @@ def run(env, tier, seed, broken=None):
     groups = []
     n = 0
     strings = ['abc', '', '5', '১০', '1e3', 'k', 'ab', ' 5', 'অ', '0', '-2', 'true', '\ufeff42', '\ufeff', 'a\u0301']
-    numbers = [3, 0, 1, 255, 1000000, 2 ** 40, 7, 12, 999999, 10 ** 7]
+    numbers = [3, 0, 1, 255, 1000000, 2 ** 40, 7, 12, 999999, 10 ** 7, 2 ** 53, 2 ** 60, 2 ** 62]    # the last three: beyond 2^53, where an integer representation and a binary64 one could part
     for s in strings:
         prods = str_producers(s)
         for ctx in CONTEXTS:
